@@ -13,15 +13,16 @@ from ..specgen import normalise_cond, normalise_path, nested_leaves, path_leaves
 from ..describe import Inert0
 from ..ruleterms import Tags, obs_rule_test
 from ..terms import valida, Bin
+from ..pathterms import PathT
 from .c09 import IMPORTS
 from .c10 import limit_parts
 from .c11 import fix_leaf, meaningful, jsonable
 from .c15 import cast_doc
 
 PROP = "C13"
-THEOREMS = ["C13_rule", "C13_rule_behaviour", "C13_paths_of_c12_roundtrip", "C13_cast_blocks", "C13_cast_names_back", "C13_schema",
+THEOREMS = ["C13_rule_with_path_arguments", "C13_schema_with_path_arguments", "C13_rule", "C13_rule_behaviour", "C13_paths_of_c12_roundtrip", "C13_cast_blocks", "C13_cast_names_back", "C13_schema",
             "C13_modified_path_is_refused"]
-DEPENDS = ['Py.v', 'Lang.v', 'Defs.v', 'Cond.v', 'Dsl.v', 'Check.v', 'DocSem.v', 'Inst.v', 'Gen/TablesGen.v', 'Gen/CallablesGen.v', 'Gen/SpecGen.v', 'Path.v', 'PathSpec.v', 'Cast.v', 'Str.v', 'SpecDefs.v', 'RuleDefs.v', 'Rule.v', 'Spec.v', 'SpecIO.v', 'Eq.v', 'FromStr.v', 'RunSpec.v', 'SpecSpell.v', 'RuleTerms.v', 'Proofs/Tie.v', 'Proofs/PyFacts.v', 'Proofs/C01Proof.v', 'Proofs/C02Proof.v', 'Proofs/C03Proof.v', 'Proofs/C04Proof.v', 'Proofs/RuleProof.v', 'Proofs/C09Proof.v', 'Proofs/C10Proof.v', 'Proofs/C11Proof.v', 'Proofs/C14Proof.v', 'Proofs/C12Proof.v', 'Proofs/C13Proof.v', 'Proofs/C13Glue.v', 'Proofs/SchemaSpecProof.v', 'Properties/C13.v']
+DEPENDS = ['Py.v', 'Lang.v', 'Defs.v', 'Cond.v', 'Dsl.v', 'Check.v', 'DocSem.v', 'Inst.v', 'Gen/TablesGen.v', 'Gen/CallablesGen.v', 'Gen/SpecGen.v', 'Path.v', 'PathSpec.v', 'Cast.v', 'Str.v', 'SpecDefs.v', 'RuleDefs.v', 'Rule.v', 'Spec.v', 'SpecIO.v', 'Eq.v', 'FromStr.v', 'RunSpec.v', 'SpecSpell.v', 'RuleTerms.v', 'Proofs/Tie.v', 'Proofs/PyFacts.v', 'Proofs/C01Proof.v', 'Proofs/C02Proof.v', 'Proofs/C03Proof.v', 'Proofs/C04Proof.v', 'Proofs/RuleProof.v', 'Proofs/C09Proof.v', 'Proofs/C10Proof.v', 'Proofs/C11Proof.v', 'Proofs/C14Proof.v', 'Proofs/C12Proof.v', 'Proofs/C13Proof.v', 'Proofs/C13Glue.v', 'Proofs/SchemaSpecProof.v', 'Proofs/C11EscProof.v', 'Proofs/C11PathProof.v', 'Proofs/C13PathProof.v', 'Properties/C13.v']
 FACT_LEMMAS = ["C13Proof cast-table facts (closed computations on the generated tables)"]
 ASSUMPTIONS = ["Layer P models CPython's operators (pysem)", "json text is produced and parsed by the real json module"]
 
@@ -58,7 +59,7 @@ def run(tier, seed, model_ok, spec_ok, replay=None):
     dist = Counter()
     for i in range(n):
         doc = cast_doc(g, 3) if i % 2 else g.document(4, 4)
-        rts = [rt for rt in (rg.rule(doc, cast_p=0.5) for _ in range(g.r.choice([1, 1, 2, 3]))) if in_fragment(g, rt)]
+        rts = [rt for rt in (rg.rule(doc, cast_p=0.5, path_args_p=0.2) for _ in range(g.r.choice([1, 1, 2, 3]))) if in_fragment(g, rt)]
         if not rts:
             continue
         if g.r.random() < 0.15:
@@ -114,6 +115,11 @@ def run(tier, seed, model_ok, spec_ok, replay=None):
             if modded and out[1] == "ValueError":
                 dist["refused-modified-path"] += 1
                 continue
+            if out[1] == "TypeError" and deep_path_flags(rg.cg, rts):
+                # outside the property's quantifier (arguments are JSON values, types or data paths; here a path sits INSIDE a container
+                # argument of a several-parameter callable, which the spec language cannot express): refusal is the right outcome
+                dist["refused-path-inside-container-argument"] += 1
+                continue
             direct.append({"kind": "direct", "what": f"schema JSON round trip raised {out[1]}", "schema": [r.descr()[:200] for r in rts]})
             continue
         js, s2 = out[1]
@@ -142,6 +148,22 @@ def run(tier, seed, model_ok, spec_ok, replay=None):
     if err:
         res["k_mismatch"] = res["k_mismatch"] or [{"coq-eval-error": err}]
     return res
+
+
+def deep_path_flags(cg, rts):
+    """A data path INSIDE a list / mapping argument of a callable that takes several parameters or *args / **kwargs: the spec of such
+    a callable is the list / mapping of its arguments, and from_spec looks for path specs in its items only, not inside them
+    (no spec form: to_json_like refuses with TypeError)."""
+    for rt in rts:
+        for l in nested_leaves(rt.cond):
+            sig = [(pk, va, kw) for (m, pk, va, kw) in cg.methods.get(l.cls, []) if m == l.method]
+            several = any(len(pk) > 1 or va or kw for pk, va, kw in sig)
+            for a in list(l.args) + list(l.kwargs.values()):
+                inside = (isinstance(a, (list, tuple)) and any(isinstance(x, PathT) for x in a)) or \
+                         (isinstance(a, dict) and any(isinstance(x, PathT) for x in a.values()))
+                if inside and several:
+                    return ["path-inside-container-argument-of-multi-parameter-callable"]
+    return []
 
 
 def matches_known(known, case):
